@@ -37,6 +37,8 @@ type PPlan struct {
 	PollNs   int64    `json:"poll_ns"`
 	Coalesce bool     `json:"coalesce"`
 	Inner    bool     `json:"inner_yields"`
+	Auto     uint32   `json:"auto_density,omitempty"`
+	AutoSalt uint32   `json:"auto_salt,omitempty"`
 	Tape     []uint16 `json:"tape,omitempty"`
 	Strategy int      `json:"strategy,omitempty"`
 	Fired    []int    `json:"fired,omitempty" shrink:"-"`
@@ -102,6 +104,8 @@ func GenPPlan(r *core.Rng) *PPlan {
 	p.PollNs = core.Pick[int64](r, 1e6, 10e6, 100e6, 500e6)
 	p.Coalesce = r.Chance(2, 3)
 	p.Inner = r.Chance(1, 4)
+	p.Auto = core.Pick(r, uint32(0), 0, 0, 2, 5, 11)
+	p.AutoSalt = r.U32()
 	fired := make([]int, nPFaults)
 	nEv := r.Range(1, 10)
 	pDrop := core.Pick(r, 0, 5, 15)
@@ -295,7 +299,7 @@ func ExecPPlan(prop string) func(p *PPlan, trace bool) *core.Result {
 		}
 		h := pipeHist
 		h.Reset()
-		sc := core.NewSched(h, p.Tape, 6000)
+		sc := core.NewSched(h, p.Tape, 20000)
 		sc.Strategy = p.Strategy
 		sc.StickyMod = 4
 		start := sc.Start
@@ -403,10 +407,12 @@ func ExecPPlan(prop string) func(p *PPlan, trace bool) *core.Result {
 			h.Rec(evPClose, e, 0, 0, 0, "")
 		})
 		setInnerYields(p.Inner)
+		setAuto(p.Auto, p.AutoSalt)
 		setActiveSched(sc)
 		verdict := sc.Run()
 		setActiveSched(nil)
 		setInnerYields(false)
+		setAuto(0, 0)
 		res.Verdict = verdict
 		res.SchedHash = sc.SchedHash
 		res.Steps = sc.Steps
